@@ -390,7 +390,7 @@ impl Cluster {
         let mut h = 0u64;
         let mut per: BTreeMap<Uuid, String> = BTreeMap::new();
         for e in &snap.entries {
-            per.insert(e.get_uuid(), crate::dump::entry_json(e).to_string());
+            per.insert(e.get_uuid(), crate::dump::entry_json_masked(e).to_string());
         }
         for js in per.values() {
             h = h.rotate_left(5) ^ fnv64(js.as_bytes());
@@ -934,7 +934,7 @@ impl Cluster {
             }
         }
         for d in dumps.iter().flatten() {
-            let h = d.digest();
+            let h = d.digest_masked();
             self.out.chain(h);
         }
     }
